@@ -81,6 +81,15 @@ Print Assumptions v2_header_any_segmentation.
 
 
 
+(** version 2, LOCAL command: accepted with no addresses for EVERY family/protocol byte (the specification says the
+    receiver must ignore it) and every address block / TLV bytes of the declared length; payload exact *)
+Theorem v2_local_header_any_segmentation : forall fp body payload cs,
+  (N.of_nat (length body) < 65536)%N ->
+  chunks cs ((V2PREFIX ++ [32%N; fp] ++ N_to_be 2 (N.of_nat (length body)) ++ body) ++ payload) ->
+  run wfeed winit cs = (payload, Some (Pass NoAddr, [])).
+Proof. exact v2_local_header_any_segmentation_proof. Qed.
+Print Assumptions v2_local_header_any_segmentation.
+
 (** the wrapper as it is at the pinned commit closes a valid connection whose first delivery has
     fewer than 8 bytes, although it accepts the same stream delivered at once (finding F19) *)
 Theorem short_first_chunk_refuted : exists cs1 cs2,
